@@ -79,6 +79,25 @@ UNITS = [
      [("mask_arr8", "mask_arr8", "9"), ("mask_arr32", "mask_arr32", "33")]),
     ("Cskphuff", '#include "hdf_priv.h"\n#include "hcomp_priv.h"\n#include "%s/cskphuff.c"\n' % HS,
      ["SKPHUFF_MAX_CHAR", "SUCCMAX", "TWICEMAX", "ROOT", "TMP_BUF_SIZE"], []),
+    # C10 attributes: predefined attribute names (as byte tables, printed from the macros), limits, type tables
+    ("Attr", '#include "hdf_priv.h"\n#include "vg_priv.h"\n#include "mfgr_priv.h"\n#include "nc_priv.h"\n#include "mfhdf.h"\n'
+     'static long long *at_tab(int which) { static long long t[4][64]; for (int i = 0; i < 64; i++) {\n'
+     '  t[0][i] = DFKNTsize(i); t[1][i] = DFKNTsize(i | DFNT_NATIVE); t[2][i] = DFKNTsize(i | DFNT_LITEND);\n'
+     '  t[3][i] = (long long)(int)hdf_unmap_type(i); } return t[which]; }\n'
+     'static long long *at_nclen(void) { static long long t[16]; for (int i = 0; i < 16; i++) t[i] = (i >= NC_BYTE && i <= NC_DOUBLE) ? NC_typelen((nc_type)i) : -1; return t; }\n',
+     ["H4_MAX_NC_ATTRS", "H4_MAX_NC_NAME", "H4_MAX_VAR_DIMS", "VSNAMELENMAX", "FIELDNAMELENMAX", "MAX_ORDER", "MAX_FIELD_SIZE",
+      "GR_ATTR_THRESHHOLD", "_HDF_VDATA", "DFNT_NATIVE", "DFNT_LITEND", "DFNT_CHAR", "DFNT_UCHAR", "DFNT_FLOAT32", "DFNT_FLOAT64", "DFNT_INT32",
+      "IS_SDSVAR", "IS_CRDVAR", "UNKNOWN", "SDSTYPE", "DIMTYPE", "CDFTYPE", "NC_CHAR", "NC_UNLIMITED", "SD_UNLIMITED", "FAIL", "DFREF_WILDCARD"],
+     [("NT_SIZE", "at_tab(0)", "64"), ("NT_SIZE_NATIVE", "at_tab(1)", "64"), ("NT_SIZE_LITEND", "at_tab(2)", "64"),
+      ("UNMAP", "at_tab(3)", "64"), ("NCLEN", "at_nclen()", "16"),
+      ("S_LongName", "_HDF_LongName", "strlen(_HDF_LongName)"), ("S_Units", "_HDF_Units", "strlen(_HDF_Units)"),
+      ("S_Format", "_HDF_Format", "strlen(_HDF_Format)"), ("S_CoordSys", "_HDF_CoordSys", "strlen(_HDF_CoordSys)"),
+      ("S_ValidRange", "_HDF_ValidRange", "strlen(_HDF_ValidRange)"), ("S_ScaleFactor", "_HDF_ScaleFactor", "strlen(_HDF_ScaleFactor)"),
+      ("S_ScaleFactorErr", "_HDF_ScaleFactorErr", "strlen(_HDF_ScaleFactorErr)"), ("S_AddOffset", "_HDF_AddOffset", "strlen(_HDF_AddOffset)"),
+      ("S_AddOffsetErr", "_HDF_AddOffsetErr", "strlen(_HDF_AddOffsetErr)"), ("S_CalibratedNt", "_HDF_CalibratedNt", "strlen(_HDF_CalibratedNt)"),
+      ("S_ValidMax", "_HDF_ValidMax", "strlen(_HDF_ValidMax)"), ("S_ValidMin", "_HDF_ValidMin", "strlen(_HDF_ValidMin)"),
+      ("S_FillValue", "_FillValue", "strlen(_FillValue)"), ("S_fakeDim", "\"fakeDim\"", "7"),
+      ("S_ATTRIBUTE", "_HDF_ATTRIBUTE", "strlen(_HDF_ATTRIBUTE)"), ("S_ATTR_FIELD_NAME", "ATTR_FIELD_NAME", "strlen(ATTR_FIELD_NAME)")]),
     ("Bitvect", '#include "hdf_priv.h"\n#include "%s/bitvect.c"\n' % HS,
      ["BV_DEFAULT_BITS", "BV_CHUNK_SIZE", "BV_BASE_BITS"],
      [("bv_first_zero", "bv_first_zero", "256"), ("bv_bit_value", "bv_bit_value", "8"), ("bv_bit_mask", "bv_bit_mask", "9")]),
@@ -319,7 +338,8 @@ def main():
         digest[fn] = hashlib.sha256(txt.encode()).hexdigest()[:16]
     for rel in ["hdf/src/hfile_priv.h", "hdf/src/hdf.h", "hdf/src/htags.h", "hdf/src/hlimits.h", "hdf/src/hntdefs.h", "hdf/src/crle.c",
                 "hdf/src/crle_priv.h", "hdf/src/atom.c", "hdf/src/bitvect.c", "hdf/src/bitvect_priv.h", "hdf/src/vg_priv.h", "hdf/src/hcomp.h", "hdf/src/mfan_priv.h", "hdf/src/mfan.c", "hdf/src/vgp.c", "hdf/src/vg.c",
-                "hdf/src/mcache.c", "hdf/src/mcache_priv.h", "hdf/src/hbitio.c", "hdf/src/hbitio_priv.h", "hdf/src/cnbit.c", "hdf/src/cnbit_priv.h", "hdf/src/cskphuff.c", "hdf/src/cskphuff_priv.h", "hdf/src/dfkswap.c", "hdf/src/dfknat.c", "hdf/src/dfconv.c"]:
+                "hdf/src/mcache.c", "hdf/src/mcache_priv.h", "hdf/src/hbitio.c", "hdf/src/hbitio_priv.h", "hdf/src/cnbit.c", "hdf/src/cnbit_priv.h", "hdf/src/cskphuff.c", "hdf/src/cskphuff_priv.h", "hdf/src/dfkswap.c", "hdf/src/dfknat.c", "hdf/src/dfconv.c",
+                "hdf/src/mfgr_priv.h", "hdf/src/vattr.c", "hdf/src/mfgr.c", "mfhdf/src/mfsd.c", "mfhdf/src/attr.c", "mfhdf/src/cdf.c"]:
         p = os.path.join(repo, rel)
         if os.path.exists(p):
             sources[rel] = sha(p)
